@@ -66,6 +66,7 @@ Qed.
 
 Section PollInv.
 Variable ri : bool.
+Variable ne : bool.
 
 Lemma regP_unique : forall st sp c1 c2 s1 s2, InvP ri st sp ->
   sp c1 = Some s1 -> s_reg s1 = true -> sp c2 = Some s2 -> s_reg s2 = true -> s_fd s1 = s_fd s2 -> c1 = c2.
@@ -117,11 +118,14 @@ Proof.
 Qed.
 
 (* ---- update ---------------------------------------------------------------------------------------- *)
-Lemma pp_upd_ok : forall st sp u c, InvP ri st sp -> sguard sp (Upd u c) -> sclean sp (Upd u c) ->
-  (ri = false -> sfresh sp (Upd u c)) ->
-  exists st', pp_step ri st (Upd u c) = Ok (st', []) /\ InvP ri st' (spec_step sp (Upd u c)).
+Lemma pp_upd_ok : forall st sp u c, InvP ri st sp -> sguard sp (Upd u c) ->
+  (ne = false -> sclean sp (Upd u c)) -> (ri = false -> sfresh sp (Upd u c)) ->
+  exists st', pp_step ri ne st (Upd u c) = Ok (st', []) /\ InvP ri st' (spec_step sp (Upd u c)).
 Proof.
-  intros st sp u c I [s [Hs G]] CL FR. cbn in CL. specialize (CL s Hs).
+  intros st sp u c I [s [Hs G]] CL0 FR.
+  assert (CL : ne = false -> apply_uop u (s_ev s) = 0%N -> s_reg s = true /\ s_ev s <> 0%N).
+  { intros F. exact (CL0 F s Hs). }
+  assert (NED : ne = true \/ ne = false) by (destruct (Bool.bool_dec ne true) as [X|X]; [auto|right; now apply not_true_is_false]).
   pose proof (ip_obj _ _ _ I c) as RO. rewrite Hs in RO. apply rel_obj_some in RO.
   destruct RO as [ch [Ho [Efd [Eev [Ead OK]]]]].
   cbn [pp_step spec_step]. rewrite Ho, Hs, Eev.
@@ -131,14 +135,16 @@ Proof.
   - (* not registered: push_back *)
     assert (R : s_reg s = false) by congruence.
     destruct G as [G|G]; [congruence|].
-    assert (Hev : ev' <> 0%N). { intros E. destruct (CL E). congruence. }
     assert (Hidx : index ch = (-1)%Z).
     { destruct A2 as [A2|[A2 [A3 _]]]; [auto|]. specialize (FR A2 s Hs). cbn in FR. congruence. }
     rewrite Hidx. cbn [Z.ltb Z.compare].
     rewrite (freeP_fd _ _ _ I) by (rewrite Efd; exact G). cbn [bind].
     eexists. split; [reflexivity|].
-    assert (SL : slot (mkChan (fd ch) ev' (Z.of_nat (length (p_pfds st))) true) = mkPfd (Z.of_nat (fd ch)) ev').
-    { unfold slot. cbn. destruct (N.eqb_spec ev' 0); [contradiction|reflexivity]. }
+    assert (SL : slot (mkChan (fd ch) ev' (Z.of_nat (length (p_pfds st))) true) =
+                 mkPfd (if ne && isNone (mkChan (fd ch) ev' (-1) true) then neg_fd (fd ch) else Z.of_nat (fd ch)) ev').
+    { unfold slot, isNone. cbn [events fd]. rewrite kNone0. destruct (N.eqb_spec ev' 0) as [Z0|NZ].
+      - destruct NED as [->|NF]; [reflexivity|]. exfalso. destruct (CL NF Z0). congruence.
+      - now rewrite andb_false_r. }
     constructor; cbn [p_objs p_map p_pfds].
     + intros c0. destruct (Nat.eq_dec c0 c) as [->|N].
       * rewrite !upd_eq. cbn. repeat split; auto. right. split; [reflexivity|].
@@ -206,7 +212,7 @@ Qed.
 
 (* ---- remove ------------------------------------------------------------------------------------------ *)
 Lemma pp_remove_ok : forall st sp c, InvP ri st sp -> sguard sp (Remove c) ->
-  exists st', pp_step ri st (Remove c) = Ok (st', []) /\ InvP ri st' (spec_step sp (Remove c)).
+  exists st', pp_step ri ne st (Remove c) = Ok (st', []) /\ InvP ri st' (spec_step sp (Remove c)).
 Proof.
   intros st sp c I [s [Hs [R Z]]].
   destruct (reg_slot _ _ _ _ I Hs R) as [ch [i [Ho [Efd [Eev [Ead [J1 [J2 Hi]]]]]]]].
@@ -322,7 +328,7 @@ Proof.
 Qed.
 
 Lemma pp_new_ok : forall st sp c f, InvP ri st sp -> sguard sp (New c f) ->
-  exists st', pp_step ri st (New c f) = Ok (st', []) /\ InvP ri st' (spec_step sp (New c f)).
+  exists st', pp_step ri ne st (New c f) = Ok (st', []) /\ InvP ri st' (spec_step sp (New c f)).
 Proof.
   intros st sp c f I G. cbn in G.
   pose proof (ip_obj _ _ _ I c) as RO. rewrite G in RO. apply rel_obj_none in RO.
@@ -334,7 +340,7 @@ Proof.
 Qed.
 
 Lemma pp_del_ok : forall st sp c, InvP ri st sp -> sguard sp (Del c) ->
-  exists st', pp_step ri st (Del c) = Ok (st', []) /\ InvP ri st' (spec_step sp (Del c)).
+  exists st', pp_step ri ne st (Del c) = Ok (st', []) /\ InvP ri st' (spec_step sp (Del c)).
 Proof.
   intros st sp c I [s [Hs R]].
   pose proof (ip_obj _ _ _ I c) as RO. rewrite Hs in RO. apply rel_obj_some in RO.
@@ -405,7 +411,7 @@ Proof.
 Qed.
 
 Lemma pp_poll_ok : forall st sp ready choice, InvP ri st sp ->
-  exists act, pp_step ri st (Poll ready choice) = Ok (st, act) /\
+  exists act, pp_step ri ne st (Poll ready choice) = Ok (st, act) /\
     forall c r, In (c, r) act <-> spec_reports sp ready c r.
 Proof.
   intros st sp ready choice I.
@@ -423,7 +429,7 @@ Proof.
 Qed.
 
 (* ---- violated preconditions are rejected --------------------------------------------------------------- *)
-Lemma pp_rejected : forall st sp o, InvP ri st sp -> ~ sguard sp o -> pp_step ri st o = Rejected.
+Lemma pp_rejected : forall st sp o, InvP ri st sp -> ~ sguard sp o -> pp_step ri ne st o = Rejected.
 Proof.
   intros st sp o I NG. destruct o as [c f|c|u c|c|ready choice]; cbn in NG.
   - cbn [pp_step]. pose proof (ip_obj _ _ _ I c) as RO.
@@ -462,15 +468,15 @@ Proof.
 Qed.
 
 (* ---- reachability and the refinement statement ----------------------------------------------------------- *)
-Definition pextra (sp : spec) (o : op) : Prop := sclean sp o /\ (ri = false -> sfresh sp o).
+Definition pextra (sp : spec) (o : op) : Prop := (ne = false -> sclean sp o) /\ (ri = false -> sfresh sp o).
 
 Inductive reachP : pp -> spec -> Prop :=
 | reachP_init : reachP pp_init spec0
 | reachP_step : forall st sp o st' act, reachP st sp -> sguard sp o -> pextra sp o ->
-    pp_step ri st o = Ok (st', act) -> reachP st' (spec_step sp o).
+    pp_step ri ne st o = Ok (st', act) -> reachP st' (spec_step sp o).
 
 Lemma pp_step_ok : forall st sp o, InvP ri st sp -> sguard sp o -> pextra sp o ->
-  exists st' act, pp_step ri st o = Ok (st', act) /\ InvP ri st' (spec_step sp o) /\
+  exists st' act, pp_step ri ne st o = Ok (st', act) /\ InvP ri st' (spec_step sp o) /\
     match o with
     | Poll ready _ => st' = st /\ forall c r, In (c, r) act <-> spec_reports sp ready c r
     | _ => act = []
@@ -493,12 +499,12 @@ Qed.
 Lemma reachP_refines : forall st sp, reachP st sp ->
   forall o,
     (sguard sp o -> pextra sp o ->
-       exists st' act, pp_step ri st o = Ok (st', act) /\ reachP st' (spec_step sp o) /\
+       exists st' act, pp_step ri ne st o = Ok (st', act) /\ reachP st' (spec_step sp o) /\
          match o with
          | Poll ready _ => st' = st /\ forall c r, In (c, r) act <-> spec_reports sp ready c r
          | _ => act = []
          end) /\
-    (~ sguard sp o -> pp_step ri st o = Rejected).
+    (~ sguard sp o -> pp_step ri ne st o = Rejected).
 Proof.
   intros st sp R o. pose proof (reachP_inv _ _ R) as I. split.
   - intros G X. destruct (pp_step_ok _ _ _ I G X) as [st' [act [E [I' M]]]].
@@ -507,27 +513,29 @@ Proof.
 Qed.
 End PollInv.
 
-(* with the index reset the second extra hypothesis is vacuous *)
-Lemma pextra_true : forall sp o, sclean sp o -> pextra true sp o.
-Proof. intros sp o H. split; [exact H|discriminate]. Qed.
+(* with the index reset (F-1 fixed) and the negated new entry (F-14 fixed) no extra hypothesis is left *)
+Lemma pextra_true : forall sp o, pextra true true sp o.
+Proof. intros sp o. split; discriminate. Qed.
+Lemma pextra_reset : forall ne sp o, sclean sp o -> pextra true ne sp o.
+Proof. intros ne sp o H. split; [intros _; exact H|discriminate]. Qed.
 
 (* ---- both back-ends on the same history ------------------------------------------------------------------- *)
-Lemma backends_agree : forall ri stE stP sp ready choiceE choiceP stP' actP,
-  reachE stE sp -> reachP ri stP sp ->
-  pp_step ri stP (Poll ready choiceP) = Ok (stP', actP) ->
+Lemma backends_agree : forall se ri ne stE stP sp ready choiceE choiceP stP' actP,
+  reachE se stE sp -> reachP ri ne stP sp ->
+  pp_step ri ne stP (Poll ready choiceP) = Ok (stP', actP) ->
   (forall c r, In (c, r) actP <-> In (c, r) (ep_full stE ready)) /\
-  (exists stE' actE, ep_step stE (Poll ready choiceE) = Ok (stE', actE) /\
+  (exists stE' actE, ep_step se stE (Poll ready choiceE) = Ok (stE', actE) /\
      (forall c r, In (c, r) actE -> In (c, r) actP) /\
      (length (ep_full stE ready) <= e_cap stE -> forall c r, In (c, r) actP -> In (c, r) actE)).
 Proof.
-  intros ri stE stP sp ready choiceE choiceP stP' actP RE RP E.
-  pose proof (reachE_inv _ _ RE) as IE. pose proof (reachP_inv _ _ _ RP) as IP.
-  destruct (pp_poll_ok ri _ _ ready choiceP IP) as [act [E2 IFF]].
+  intros se ri ne stE stP sp ready choiceE choiceP stP' actP RE RP E.
+  pose proof (reachE_inv _ _ _ RE) as IE. pose proof (reachP_inv _ _ _ _ RP) as IP.
+  destruct (pp_poll_ok ri ne _ _ ready choiceP IP) as [act [E2 IFF]].
   rewrite E2 in E. injection E as <- <-.
   assert (A : forall c r, In (c, r) act <-> In (c, r) (ep_full stE ready)).
   { intros c r. rewrite IFF. symmetry. now apply ep_full_in. }
   split; [exact A|].
-  destruct (ep_poll_ok _ _ ready choiceE IE) as [actE [rest [E3 [HP HL]]]].
+  destruct (ep_poll_ok se _ _ ready choiceE IE) as [actE [rest [E3 [HP HL]]]].
   eexists _, actE. split; [exact E3|]. split.
   - intros c r H. apply A. eapply Permutation_in; [apply Permutation_sym; exact HP|]. apply in_or_app. now left.
   - intros LE c r H. apply A in H.
@@ -537,24 +545,24 @@ Proof.
 Qed.
 
 (* ---- running a conforming history reaches a related state (used by the non-vacuity examples) -------- *)
-Lemma run_reachE : forall ops st sp, reachE st sp -> hist_ok sclean sp ops ->
-  exists st' outs, ep_run st ops = Ok (st', outs) /\ reachE st' (spec_run sp ops).
+Lemma run_reachE : forall se ops st sp, reachE se st sp -> hist_ok (eextra se) sp ops ->
+  exists st' outs, ep_run se st ops = Ok (st', outs) /\ reachE se st' (spec_run sp ops).
 Proof.
-  induction ops as [|o t IH]; intros st sp R H.
+  intros se. induction ops as [|o t IH]; intros st sp R H.
   - exists st, []. split; [reflexivity|exact R].
-  - destruct H as [G [CL H]]. pose proof (reachE_inv _ _ R) as I.
-    destruct (ep_step_ok _ _ _ I G CL) as [st1 [act [E _]]].
+  - destruct H as [G [CL H]]. pose proof (reachE_inv _ _ _ R) as I.
+    destruct (ep_step_ok se _ _ _ I G CL) as [st1 [act [E _]]].
     destruct (IH st1 (spec_step sp o)) as [st' [outs [E' R']]]; [econstructor; eauto|exact H|].
     cbn [ep_run]. rewrite E. cbn [bind fst snd]. rewrite E'. cbn [bind fst snd].
     eexists _, _. split; [reflexivity|exact R'].
 Qed.
-Lemma run_reachP : forall ri ops st sp, reachP ri st sp -> hist_ok (pextra ri) sp ops ->
-  exists st' outs, pp_run ri st ops = Ok (st', outs) /\ reachP ri st' (spec_run sp ops).
+Lemma run_reachP : forall ri ne ops st sp, reachP ri ne st sp -> hist_ok (pextra ri ne) sp ops ->
+  exists st' outs, pp_run ri ne st ops = Ok (st', outs) /\ reachP ri ne st' (spec_run sp ops).
 Proof.
-  intros ri. induction ops as [|o t IH]; intros st sp R H.
+  intros ri ne. induction ops as [|o t IH]; intros st sp R H.
   - exists st, []. split; [reflexivity|exact R].
-  - destruct H as [G [X H]]. pose proof (reachP_inv _ _ _ R) as I.
-    destruct (pp_step_ok ri _ _ _ I G X) as [st1 [act [E _]]].
+  - destruct H as [G [X H]]. pose proof (reachP_inv _ _ _ _ R) as I.
+    destruct (pp_step_ok ri ne _ _ _ I G X) as [st1 [act [E _]]].
     destruct (IH st1 (spec_step sp o)) as [st' [outs [E' R']]]; [econstructor; eauto|exact H|].
     cbn [pp_run]. rewrite E. cbn [bind fst snd]. rewrite E'. cbn [bind fst snd].
     eexists _, _. split; [reflexivity|exact R'].
@@ -566,39 +574,43 @@ Proof.
   destruct H as [G [X H]]. split; [exact G|]. split; [now apply W|now apply IH].
 Qed.
 
-(* ---- the poll back-end of the CURRENT tree (F-1 fixed): no hypothesis beyond the preconditions and sclean ----
-   The generated fact says PollPoller::removeChannel ends with channel->set_index(-1); reverting that
-   line flips the fact and breaks this lemma (and everything below it). *)
+(* ---- the poll back-end of the CURRENT tree (F-1 fixed bbde8b0, F-14 fixed a5a0563): preconditions only ----
+   The generated facts say PollPoller::removeChannel ends with channel->set_index(-1) and the new-entry
+   branch of updateChannel stores -fd-1 for an empty interest; reverting either fix flips a fact and
+   breaks the lemma that reads it (and everything below). *)
 Lemma resets_index_current : PollPoller_remove_resets_index = true.
 Proof. reflexivity. Qed.
+Lemma new_entry_negates_current : PollPoller_new_entry_negates_empty = true.
+Proof. reflexivity. Qed.
 
-Lemma pp_step_current_eq : forall st o, pp_step_current st o = pp_step true st o.
-Proof. intros. unfold pp_step_current. now rewrite resets_index_current. Qed.
+Lemma pp_step_current_eq : forall st o, pp_step_current st o = pp_step true true st o.
+Proof. intros. unfold pp_step_current. now rewrite resets_index_current, new_entry_negates_current. Qed.
 
 Inductive reachPC : pp -> spec -> Prop :=
 | reachPC_init : reachPC pp_init spec0
-| reachPC_step : forall st sp o st' act, reachPC st sp -> sguard sp o -> sclean sp o ->
+| reachPC_step : forall st sp o st' act, reachPC st sp -> sguard sp o ->
     pp_step_current st o = Ok (st', act) -> reachPC st' (spec_step sp o).
 
-Lemma reachPC_reachP : forall st sp, reachPC st sp -> reachP true st sp.
+Lemma reachPC_reachP : forall st sp, reachPC st sp -> reachP true true st sp.
 Proof.
-  induction 1 as [|st sp o st' act R IH G CL E]; [constructor|].
-  rewrite pp_step_current_eq in E. econstructor; eauto. now apply pextra_true.
+  induction 1 as [|st sp o st' act R IH G E]; [constructor|].
+  rewrite pp_step_current_eq in E. econstructor; eauto. apply pextra_true.
 Qed.
-Lemma reachP_reachPC : forall st sp, reachP true st sp -> reachPC st sp.
+Lemma reachP_reachPC : forall st sp, reachP true true st sp -> reachPC st sp.
 Proof.
-  induction 1 as [|st sp o st' act R IH G [CL _] E]; [constructor|].
+  induction 1 as [|st sp o st' act R IH G _ E]; [constructor|].
   econstructor; eauto; now rewrite pp_step_current_eq.
 Qed.
 
 Lemma reachPC_inv : forall st sp, reachPC st sp -> InvP true st sp.
-Proof. intros st sp R. apply reachP_inv. now apply reachPC_reachP. Qed.
+Proof. intros st sp R. apply (reachP_inv true true). now apply reachPC_reachP. Qed.
 
-(* for ALL histories meeting the preconditions and sclean -- remove() and re-registration of the same
-   Channel object included -- every op succeeds and Poll reports exactly the interest map's set *)
+(* for ALL histories meeting the documented preconditions -- remove() and re-registration of the same
+   Channel object and redundant disables included -- every op succeeds and Poll reports exactly the
+   interest map's set *)
 Lemma reachPC_refines : forall st sp, reachPC st sp ->
   forall o,
-    (sguard sp o -> sclean sp o ->
+    (sguard sp o ->
        exists st' act, pp_step_current st o = Ok (st', act) /\ reachPC st' (spec_step sp o) /\
          match o with
          | Poll ready _ => st' = st /\ forall c r, In (c, r) act <-> spec_reports sp ready c r
@@ -607,37 +619,37 @@ Lemma reachPC_refines : forall st sp, reachPC st sp ->
     (~ sguard sp o -> pp_step_current st o = Rejected).
 Proof.
   intros st sp R o. pose proof (reachPC_reachP _ _ R) as RP.
-  destruct (reachP_refines true st sp RP o) as [A B]. split.
-  - intros G CL. destruct (A G (pextra_true _ _ CL)) as [st' [act [E [R' M]]]].
+  destruct (reachP_refines true true st sp RP o) as [A B]. split.
+  - intros G. destruct (A G (pextra_true _ _)) as [st' [act [E [R' M]]]].
     exists st', act. rewrite pp_step_current_eq. split; [exact E|]. split; [now apply reachP_reachPC|exact M].
   - intros NG. rewrite pp_step_current_eq. now apply B.
 Qed.
 
-Lemma reachPC_no_fault : forall st sp o, reachPC st sp -> sclean sp o -> pp_step_current st o <> Fault.
+Lemma reachPC_no_fault : forall st sp o, reachPC st sp -> pp_step_current st o <> Fault.
 Proof.
-  intros st sp o R CL F. destruct (reachPC_refines st sp R o) as [A B].
-  assert (NG : ~ sguard sp o). { intros G. destruct (A G CL) as [st' [act [E _]]]. congruence. }
+  intros st sp o R F. destruct (reachPC_refines st sp R o) as [A B].
+  assert (NG : ~ sguard sp o). { intros G. destruct (A G) as [st' [act [E _]]]. congruence. }
   rewrite (B NG) in F. discriminate.
 Qed.
 
-Lemma run_reachPC : forall ops st sp, reachPC st sp -> hist_ok sclean sp ops ->
+Lemma run_reachPC : forall ops st sp, reachPC st sp -> hist_ok no_extra sp ops ->
   exists st' outs, pp_run_current st ops = Ok (st', outs) /\ reachPC st' (spec_run sp ops).
 Proof.
   induction ops as [|o t IH]; intros st sp R H.
   - exists st, []. split; [reflexivity|exact R].
-  - destruct H as [G [CL H]].
-    destruct (reachPC_refines st sp R o) as [A _]. destruct (A G CL) as [st1 [act [E [R1 _]]]].
+  - destruct H as [G [_ H]].
+    destruct (reachPC_refines st sp R o) as [A _]. destruct (A G) as [st1 [act [E [R1 _]]]].
     destruct (IH st1 (spec_step sp o) R1 H) as [st' [outs [E' R']]].
     unfold pp_run_current in *. cbn [pp_run]. unfold pp_step_current in E. rewrite E. cbn [bind fst snd].
     rewrite E'. cbn [bind fst snd]. eexists _, _. split; [reflexivity|exact R'].
 Qed.
 
-(* both back-ends of the current tree on the same (sclean) history *)
+(* both back-ends of the current tree on the same history *)
 Lemma backends_agree_current : forall stE stP sp ready choiceE choiceP,
-  reachE stE sp -> reachPC stP sp ->
+  reachEC stE sp -> reachPC stP sp ->
   exists actP stE' actE,
     pp_step_current stP (Poll ready choiceP) = Ok (stP, actP) /\
-    ep_step stE (Poll ready choiceE) = Ok (stE', actE) /\
+    ep_step_current stE (Poll ready choiceE) = Ok (stE', actE) /\
     (forall c r, In (c, r) actP <-> spec_reports sp ready c r) /\
     (forall c r, In (c, r) actP <-> In (c, r) (ep_full stE ready)) /\
     (forall c r, In (c, r) actE -> In (c, r) actP) /\
@@ -645,19 +657,19 @@ Lemma backends_agree_current : forall stE stP sp ready choiceE choiceP,
 Proof.
   intros stE stP sp ready choiceE choiceP RE RP.
   destruct (reachPC_refines stP sp RP (Poll ready choiceP)) as [A _].
-  destruct (A Logic.I Logic.I) as [stP' [actP [E [_ [-> IFF]]]]].
+  destruct (A Logic.I) as [stP' [actP [E [_ [-> IFF]]]]].
   pose proof E as E0. rewrite pp_step_current_eq in E0.
-  destruct (backends_agree true stE stP sp ready choiceE choiceP stP actP RE (reachPC_reachP _ _ RP) E0)
-    as [B [stE' [actE [E2 [C D]]]]].
-  exists actP, stE', actE. repeat split; auto; try apply IFF; try apply B.
+  destruct (backends_agree true true true stE stP sp ready choiceE choiceP stP actP (reachEC_reachE _ _ RE)
+              (reachPC_reachP _ _ RP) E0) as [B [stE' [actE [E2 [C D]]]]].
+  exists actP, stE', actE. rewrite ep_step_current_eq. repeat split; auto; try apply IFF; try apply B.
 Qed.
 
-(* every history meeting the preconditions and sclean runs on both back-ends of the current tree *)
-Lemma histories_run : forall ops, hist_ok sclean spec0 ops ->
-  (exists stE outsE, ep_run ep_init ops = Ok (stE, outsE) /\ reachE stE (spec_run spec0 ops)) /\
+(* every history meeting the preconditions runs to the end on both back-ends of the current tree *)
+Lemma histories_run : forall ops, hist_ok no_extra spec0 ops ->
+  (exists stE outsE, ep_run_current ep_init ops = Ok (stE, outsE) /\ reachEC stE (spec_run spec0 ops)) /\
   (exists stP outsP, pp_run_current pp_init ops = Ok (stP, outsP) /\ reachPC stP (spec_run spec0 ops)).
 Proof.
   intros ops H. split.
-  - apply run_reachE; [constructor|exact H].
+  - apply run_reachEC; [constructor|exact H].
   - apply run_reachPC; [constructor|exact H].
 Qed.
